@@ -30,8 +30,8 @@ DEVS = ["Float32EncodedAsInt", "NarrowScalarRaises", "ArrayDtypeLost", "EmptyArr
         "RatioZeroUpdatesRaises", "ChoiceAccumOrderLost", "CurrentRepNotSerialized"]
 HYPS = ["SetAsList", "MarksDropped", "IndexDropped", "ParentDropped", "NumUpdatesDropped", "FileNameRounds"]
 LAWS = ["TypeOK", "EncodeTotal", "DecodeTotal", "RoundTripEq", "RoundTripFaithful", "DoubleRoundTrip",
-        "MarksPreserved", "ChildLaw", "StatsLaw", "FileNameInjective", "FileNameFunctional"]
-FAMILIES = ["value", "params", "result", "results", "fname"]
+        "MarksPreserved", "ChildLaw", "StatsLaw", "FileNameInjective", "FileNameFunctional", "FinePoolOk"]
+FAMILIES = ["value", "params", "result", "results", "fields", "fname"]
 # flag -> (family in which TLC must find it, law that must be violated)
 DEV_EXPECT = {
     "Float32EncodedAsInt": ("value", "RoundTripEq"),
@@ -595,10 +595,128 @@ def run_fname_case(c, wd):
             out.append(("fname", f"file name for {v['t']} {v['n']}/{v['d']} {v['s']!r} is {got!r}, expected {exp!r}"))
     if (c["n1"] != c["n2"]) != (names[0] != names[1]):
         out.append(("fname", f"names {names} : distinctness differs from the model ({c['n1']!r}, {c['n2']!r})"))
+    if c["n1"] != c["n2"]:  # end to end: both saved through the one template, each loaded back
+        objs = [tagged_results(SimulationParameters.create({"num": to_py(v)}), i) for i, v in enumerate((c["v1"], c["v2"]))]
+        save_all_load_back(objs, os.path.join(wd, "e2e", c["template"]), out, "pair through one template")
     return out
 
 
-RUNNERS = {"value": run_params_case, "params": run_params_case, "result": run_result_case,
+def run_fields_case(c, wd):
+    """SimulationResults as a string only (never saved): every combination of the scalar-field pools"""
+    from pyphysim.simulations.results import SimulationResults
+    out = []
+    S = c["S"]
+    pobj = make_params(S["params"], S["params"]["index"], out)
+    if pobj is None:
+        return out
+    sr = SimulationResults()
+    sr.set_parameters(pobj)
+    for grp in c["rd"]:
+        for R in grp["rs"]:
+            sr.append_result(build_result(R))
+    sr.runned_reps = to_py(S["runned"])
+    sr.current_rep = S["current"]
+    sr.original_filename = to_py(S["orig"])
+    cmp_results_fields(sr, S, "built", out, True)
+    if out:
+        return [("build", w) for _, w in out]
+    json_cycle(sr, SimulationResults, c, out, lambda o, w: cmp_results_fields(o, c["back"], w, out, False))
+    try:
+        o2 = pickle.loads(pickle.dumps(sr, protocol=2))
+        o3 = pickle.loads(pickle.dumps(o2, protocol=2))
+    except Exception as ex:
+        out.append(("pickle", f"pickling raised {type(ex).__name__}: {ex}"))
+        return out
+    for o, w in ((o2, "unpickled"), (o3, "unpickled twice")):
+        eq_both(sr, o, w + " vs x", out, c["eqdef"])
+        tmp = []
+        cmp_results_fields(o, S, w, tmp, True)
+        out.extend(("pickle:" + sg, x) for sg, x in tmp)
+    return out
+
+
+def tagged_results(params_obj, i):
+    """a SimulationResults whose content identifies variation i"""
+    from pyphysim.simulations.results import Result, SimulationResults
+    sr = SimulationResults()
+    sr.set_parameters(params_obj)
+    sr.add_result(Result.create("ber", Result.RATIOTYPE, i + 1, 128))
+    sr.current_rep = 10 * (i + 1)
+    return sr
+
+
+def save_all_load_back(objs, tmpl, out, what):
+    """Save every object through ONE template, then load every file and compare it with what was saved into it
+    (the relations NameDeterministic, NamesPairwiseDistinct, EachVariationLoadsBackItsOwn)."""
+    from pyphysim.simulations.results import SimulationResults
+    os.makedirs(os.path.dirname(tmpl), exist_ok=True)
+    names = []
+    for o in objs:
+        full = tmpl if os.path.splitext(tmpl)[-1] else tmpl + ".pickle"
+        n1, n2 = o.get_filename_with_replaced_params(full), o.get_filename_with_replaced_params(full)
+        fn = o.save_to_file(tmpl)
+        if n1 != n2 or fn != n1:
+            out.append(("fname", f"{what}: the file name is not a function of the values: {n1!r}, {n2!r}, saved to {fn!r}"))
+        names.append(fn)
+    if len(set(names)) != len(names):
+        out.append(("fname", f"{what}: distinct values got the same file name: "
+                             f"{[os.path.basename(n) for n in names]} for {[o.params['num'] for o in objs]!r}"))
+    for i, (o, fn) in enumerate(zip(objs, names)):
+        try:
+            l = SimulationResults.load_from_file(fn)
+        except Exception as ex:
+            out.append((dec_exc_sig(ex), f"{what}: loading {os.path.basename(fn)!r} raised {type(ex).__name__}: {ex}"))
+            continue
+        same = (l == o) and (o == l) and l.current_rep == o.current_rep and l.params.unpack_index == o.params.unpack_index \
+            and l["ber"][0].get_result() == o["ber"][0].get_result() \
+            and type(l.params["num"]) is not bool and l.params["num"] == o.params["num"]
+        if not same:
+            out.append(("fname", f"{what}: file {os.path.basename(fn)!r} was written for value {o.params['num']!r} "
+                                 f"(current_rep {o.current_rep}) but holds value {l.params['num']!r} (current_rep {l.current_rep})"))
+
+
+def fine_values(g):
+    """members of a fine group: (n/d) * 10^b10 + k * 2^e2 * 10^e10, exact, then one correctly rounded conversion"""
+    from fractions import Fraction as F
+    vals = []
+    for k in g["ks"]:
+        x = F(g["n"], g["d"]) * F(10) ** g["b10"] + k * F(2) ** g["e2"] * F(10) ** g["e10"]
+        t = g["t"]
+        if t in INT_T:
+            if x.denominator != 1:
+                raise ValueError("fine integer group with a non-integral member")
+            vals.append(int(x) if t == "PyInt" else NPTYPES[t](int(x)))
+        else:
+            vals.append(float(x) if t == "PyFloat" else NPTYPES[t](float(x)))
+    return vals
+
+
+def run_fine_case(c, wd):
+    from pyphysim.simulations.parameters import SimulationParameters
+    g = c["group"]
+    vals = fine_values(g)
+    if len({repr(v) for v in vals}) != len(vals) or any(a == b for i, a in enumerate(vals) for b in vals[i + 1:]):
+        return [("harness", f"premise of the fine group {g} fails: members are not different machine numbers: {vals!r}")]
+    out = []
+    dt = {"PyFloat": "float64", "NpFloat64": "float64", "NpFloat32": "float32", "NpFloat16": "float16",
+          "PyInt": "int64", "NpInt64": "int64"}[g["t"]]
+    for ext in (".json", ".pickle", ""):
+        objs = [tagged_results(SimulationParameters.create({"num": v, "tag": "t"}), i) for i, v in enumerate(vals)]
+        save_all_load_back(objs, os.path.join(wd, "a" + ext.strip("."), c["template"] + ext), out,
+                           f"separate objects, {ext or 'no extension'}")
+        parent = SimulationParameters.create({"num": np.array(vals, dtype=dt), "tag": "t"})
+        parent.set_unpack_parameter("num")
+        kids = parent.get_unpacked_params_list()
+        if len(kids) != len(vals):
+            out.append(("child", f"{len(kids)} variations for {len(vals)} values"))
+            continue
+        save_all_load_back([tagged_results(k, i) for i, k in enumerate(kids)],
+                           os.path.join(wd, "b" + ext.strip("."), c["template"] + ext), out,
+                           f"unpacked variations, {ext or 'no extension'}")
+    return out
+
+
+RUNNERS = {"fields": run_fields_case, "fine": run_fine_case, "value": run_params_case, "params": run_params_case, "result": run_result_case,
            "results": run_results_case, "fname": run_fname_case}
 
 # signature of a mismatch -> finding it may belong to (it must also be in the case's `rel` set,
@@ -666,8 +784,8 @@ def judge(ctx, c, mism):
 
 def parts_for(family, tier):
     if tier == "thorough":
-        return {"value": 8, "params": 4, "result": 4, "results": 6, "fname": 1}[family]
-    return {"value": 2, "params": 1, "result": 2, "results": 3, "fname": 1}[family]
+        return {"value": 8, "params": 4, "result": 4, "results": 12, "fields": 2, "fname": 2}[family]
+    return {"value": 2, "params": 1, "result": 2, "results": 3, "fields": 2, "fname": 1}[family]
 
 
 def run(ctx):
@@ -734,10 +852,10 @@ def run(ctx):
         if len(set(ids)) != len(ids):
             raise tlc.TlcError("two different emitted cases share an identity")
         acts = {"value": "ValueCase", "params": "ParamsCase", "result": "ResultCase", "results": "ResultsCase",
-                "fname": "FileNameCase"}
+                "fields": "FieldsCase", "fname": "FileNameCase", "fine": "FineCase"}
         for c in cases:  # every emitted case is one firing of its action
             ctx.actions[acts[c["kind"]]] = ctx.actions.get(acts[c["kind"]], 0) + 1
-        ctx.require_actions(["ValueCase", "ParamsCase", "ResultCase", "ResultsCase", "FileNameCase"])
+        ctx.require_actions(["ValueCase", "ParamsCase", "ResultCase", "ResultsCase", "FieldsCase", "FileNameCase", "FineCase"])
         for flag, law, r in druns:
             if r.violated != law:
                 raise tlc.TlcError(f"flag {flag}: TLC was expected to refute {law}, it reported {r.violated}")
